@@ -528,3 +528,172 @@ func ruleNoWaitUnderLock(w *World, r *Report, rule string, isWideLock func(m *ty
 		r.Check(len(rs.bad) == 0, rule, k, rs.pos, fmt.Sprintf("%d call(s) made while the mutex is held, none can wait for another party", rs.n), strings.Join(rs.bad, "; "))
 	}
 }
+
+// ruleLocksetConsistent: Eraser-style, statically. For every struct type of the packages in scope that has
+// mutex fields, and every other field of it that is written under one of those mutexes somewhere: all
+// write sites outside constructors hold a common mutex. A field written under mutex A in one method and
+// under mutex B in another is effectively unprotected.
+func ruleLocksetConsistent(w *World, r *Report, rule string, inScope func(pkgPath string) bool, consequence string) {
+	mods := allModuleFuncs(w, w.SSA())
+	// struct types with mutex fields
+	type tinfo struct {
+		named   *types.Named
+		mutexes []*types.Var
+	}
+	var tis []tinfo
+	for _, p := range w.Pkgs {
+		if !inScope(p.Types.Path()) {
+			continue
+		}
+		sc := p.Types.Scope()
+		for _, nm := range sc.Names() {
+			tn, ok := sc.Lookup(nm).(*types.TypeName)
+			if !ok {
+				continue
+			}
+			n, ok := tn.Type().(*types.Named)
+			if !ok {
+				continue
+			}
+			st, ok := n.Underlying().(*types.Struct)
+			if !ok {
+				continue
+			}
+			ti := tinfo{named: n}
+			for i := 0; i < st.NumFields(); i++ {
+				if isSyncMutex(st.Field(i).Type()) {
+					ti.mutexes = append(ti.mutexes, st.Field(i))
+				}
+			}
+			if len(ti.mutexes) > 0 {
+				tis = append(tis, ti)
+			}
+		}
+	}
+	if len(tis) == 0 {
+		r.Undecided(rule, "lockset:*", "-", "no struct type with mutex fields in scope")
+		return
+	}
+	regionCache := map[*ssa.Function]map[*types.Var]map[ssa.Instruction]bool{}
+	region := func(f *ssa.Function, m *types.Var) map[ssa.Instruction]bool {
+		if regionCache[f] == nil {
+			regionCache[f] = map[*types.Var]map[ssa.Instruction]bool{}
+		}
+		if rg, ok := regionCache[f][m]; ok {
+			return rg
+		}
+		rg, _ := lockRegion(f, func(v ssa.Value) bool { return mutexFieldOf(v) == m })
+		regionCache[f][m] = rg
+		return rg
+	}
+	var heldAt func(in ssa.Instruction, m *types.Var, depth int) bool
+	heldAt = func(in ssa.Instruction, m *types.Var, depth int) bool {
+		f := in.Parent()
+		if region(f, m)[in] {
+			return true
+		}
+		if depth > 3 {
+			return false
+		}
+		// closures run where they are called; a helper is protected if every call site is
+		var obj *types.Func
+		if o, ok := f.Object().(*types.Func); ok {
+			obj = o
+		}
+		if obj == nil {
+			return false
+		}
+		n := 0
+		for caller := range mods {
+			for _, c := range callsIn(caller) {
+				if sCallee(c) == obj && !c.Common().IsInvoke() {
+					n++
+					if _, isGo := c.(*ssa.Go); isGo {
+						return false
+					}
+					if !heldAt(c, m, depth+1) {
+						return false
+					}
+				}
+			}
+		}
+		return n > 0
+	}
+	for _, ti := range tis {
+		st := ti.named.Underlying().(*types.Struct)
+		for i := 0; i < st.NumFields(); i++ {
+			fv := st.Field(i)
+			if isSyncMutex(fv.Type()) {
+				continue
+			}
+			type site struct {
+				in   ssa.Instruction
+				held map[*types.Var]bool
+			}
+			var sites []site
+			anyHeld := false
+			for fn := range mods {
+				// constructors: writes to a value allocated in the same function are not shared yet
+				allInstrs(fn, func(in ssa.Instruction) {
+					stt, ok := in.(*ssa.Store)
+					if !ok {
+						return
+					}
+					fa := asFieldAddr(stt.Addr)
+					if fa == nil || fieldVarOf(fa) != fv {
+						return
+					}
+					if _, fresh := fa.X.(*ssa.Alloc); fresh {
+						return
+					}
+					h := map[*types.Var]bool{}
+					for _, m := range ti.mutexes {
+						if heldAt(in, m, 0) {
+							h[m] = true
+							anyHeld = true
+						}
+					}
+					sites = append(sites, site{in, h})
+				})
+			}
+			if !anyHeld || len(sites) < 2 {
+				continue // never written under a lock (not a lock-protected field), or a single writer
+			}
+			key := "lockset:" + qualName(ti.named) + "." + fv.Name()
+			common := map[*types.Var]bool{}
+			for _, m := range ti.mutexes {
+				common[m] = true
+			}
+			for _, s := range sites {
+				for m := range common {
+					if !s.held[m] {
+						delete(common, m)
+					}
+				}
+			}
+			if len(common) > 0 {
+				var ms []string
+				for m := range common {
+					ms = append(ms, m.Name())
+				}
+				sort.Strings(ms)
+				r.Hold(rule, key, w.Pos(fv.Pos()), fmt.Sprintf("%d write site(s), all under %s", len(sites), strings.Join(ms, "+")))
+				continue
+			}
+			var desc []string
+			for _, s := range sites {
+				var ms []string
+				for m := range s.held {
+					ms = append(ms, m.Name())
+				}
+				sort.Strings(ms)
+				if len(ms) == 0 {
+					ms = []string{"no lock"}
+				}
+				desc = append(desc, fmt.Sprintf("%s in %s under %s", w.Pos(s.in.Pos()), ssaFuncKey(s.in.Parent()), strings.Join(ms, "+")))
+			}
+			sort.Strings(desc)
+			r.Violate(rule, key, w.Pos(fv.Pos()), fmt.Sprintf("field %s is written under different locks (%s): the writers do not exclude each other — %s", fv.Name(), strings.Join(desc, "; "), consequence))
+		}
+	}
+}
